@@ -30,6 +30,7 @@ import (
 	"github.com/AliceO2Group/Control/common/event"
 	"github.com/AliceO2Group/Control/common/gera"
 	"github.com/AliceO2Group/Control/common/utils/uid"
+	"github.com/AliceO2Group/Control/common/verifhook"
 	"github.com/AliceO2Group/Control/core/task"
 	"github.com/AliceO2Group/Control/core/task/channel"
 	"github.com/AliceO2Group/Control/core/task/sm"
@@ -102,10 +103,19 @@ func (p *ParentAdapter) UnsubscribeFromStatusChange(subscriptionId string) {
 func (p *ParentAdapter) updateState(s sm.State) {
 	p.mu.Lock()
 	defer p.mu.Unlock()
+	if verifhook.Enabled && len(p.stateSubscriptions) == 0 {
+		verifhook.Point("wf.notify.nosub", "env", p.getEnvIdFunc().String(), "state", s.String())
+	}
 	for _, ch := range p.stateSubscriptions {
 		select {
 		case ch <- s:
+			if verifhook.Enabled {
+				verifhook.Point("wf.notify.sent", "env", p.getEnvIdFunc().String(), "state", s.String())
+			}
 		default:
+			if verifhook.Enabled {
+				verifhook.Point("wf.notify.dropped", "env", p.getEnvIdFunc().String(), "state", s.String())
+			}
 		}
 	}
 }
